@@ -3,7 +3,7 @@ from . import simlib as S
 SUBCMD = "sim"
 IS_TRACE = True
 RUN = "monitor"
-SHARD = 6
+SHARD = 20
 TAGS = {8, 1, 2, 7, 9, 13, 10, 14}
 RULE = ("one client connection with transfers in both directions that are still running when the client's address "
         "changes (port only or IP and port; once, or twice in quick succession so that the first new path is not yet "
@@ -14,13 +14,35 @@ RULE = ("one client connection with transfers in both directions that are still 
         "from a foreign address reached a connection that must ignore it")
 
 
+def gen_blackout(rng):
+    """the client moves and then every datagram in both directions is lost for a while (drop mask over
+    wire indices k..59): the new path cannot be validated and the server must fall back"""
+    dm = rng.choice([5000, 10000, 30000])
+    d = {"SEED": rng.range(1, 1 << 30), "DELAY_MIN": dm, "DELAY_MAX": dm, "NBIDI": 1, "NUNI": rng.below(2),
+         "STREAM_BYTES": rng.choice([20000, 60000]), "WRITE_CHUNK": 1200, "READ_MAX": 100000, "IDLE_MS": 30000,
+         "MAX_TIME": 20_000_000, "GSO": rng.choice([1, 2]), "ECHO_BYTES": rng.choice([0, 20000])}
+    k = rng.range(8, 40)
+    d["DROP_MASK"] = ((1 << 60) - 1) ^ ((1 << k) - 1)
+    d["MIGRATE_AT"] = rng.range(4 * dm, 10 * dm)
+    d["MIGRATE_KIND"] = rng.below(2)
+    if rng.chance(1, 3):
+        d["MIGRATE2_AT"] = d["MIGRATE_AT"] + rng.choice([1, dm, 3 * dm])
+    if rng.chance(1, 3):
+        d["LATE_US"] = rng.choice([500, 5000, 50000])
+    if rng.chance(1, 4):
+        d["SPOOF"] = 200
+    return S.case_of(d)
+
+
 def gen_case(rng):
+    if rng.chance(1, 5):
+        return gen_blackout(rng)
     d = {"SEED": rng.range(1, 1 << 30)}
     d["DELAY_MIN"] = rng.choice([2000, 5000, 10000, 30000])
     d["DELAY_MAX"] = d["DELAY_MIN"] * rng.choice([1, 1, 2, 4])
     d["NBIDI"] = rng.range(0, 2)
     d["NUNI"] = rng.range(0 if d["NBIDI"] else 1, 2)
-    d["STREAM_BYTES"] = rng.choice([20000, 40000, 80000, 150000])
+    d["STREAM_BYTES"] = rng.choice([20000, 40000, 80000])
     d["WRITE_CHUNK"] = rng.choice([1000, 1200, 5000, 100000])
     d["READ_MAX"] = rng.choice([1024, 100000])
     d["GSO"] = rng.choice([1, 1, 2, 5, 10])
@@ -57,16 +79,11 @@ def gen_case(rng):
         d["CID_LIFETIME_MS"] = rng.choice([50, 200, 1000])
     if rng.chance(1, 6):
         d["CID_LEN"] = rng.choice([0, 4, 20])
-    if "MIGRATE_AT" in d and rng.chance(1, 6):
-        # the client vanishes shortly after moving: validation of the new path cannot complete
-        d["SILENCE_AFTER"] = rng.range(10, 120)
-        d["SILENCE_SIDE"] = 0
-        d["MAX_TIME"] = 12_000_000
     if "SPOOF" in d and rng.chance(1, 3):
         # idle tail: nobody closes, the attacker keeps replaying
         d["CLOSER"] = 3
         d["STREAM_BYTES"] = rng.choice([5000, 30000])
-        d["MAX_TIME"] = 15_000_000
+        d["MAX_TIME"] = 8_000_000
         d["SPOOF"] = 300
     if rng.chance(1, 4):
         d["LATE_US"] = rng.choice([1, 500, 5000, 50000])
